@@ -130,6 +130,86 @@ def batched_equals_solo(U, rep, tier):
                 where=f.where(), construct='reset + %d steps, independent symbolic termination flags per member' % nsteps)
 
 
+SCRIPT_MOD = 'braxlint_script_env'
+SCRIPT_SRC = """
+class ScriptEnv:
+  def __init__(self, sys):
+    self.sys = sys
+
+  @property
+  def unwrapped(self):
+    return self
+
+  def reset(self, rng):
+    return script_reset(self.sys, rng)
+
+  def step(self, state, action):
+    return script_step(self.sys, state, action)
+
+
+def script_reset(sys, rng):
+  pass
+
+
+def script_step(sys, state, action):
+  pass
+"""
+
+
+def randomised_inner_stack(U, rep, tier):
+  """R7.1 for an env that is ALREADY wrapped when it is handed to training.wrap(..., randomization_fn=...): member b of the
+  randomised batch equals the SAME wrapper stack over a bare env that carries member b's system, run without
+  randomisation.  The bare env is a class instance interpreted like repository code (methods bound to their receiver), so
+  copying, re-binding or bypassing wrappers between the randomisation wrapper and the bare env shows."""
+  f = U.func(TW + '.DomainRandomizationVmapWrapper.step')
+  B = 2
+  nsteps = 3 if tier == 'quick' else 5
+  I = new_interp(U.repo)
+  avn.register_source(SCRIPT_MOD, SCRIPT_SRC)
+  S = c15.Script(I)
+
+  def s_reset(sysv, rng):
+    st = S.reset(rng)
+    st.f['obs'] = st.f['obs'] + asarr(sysv.f['mass'])
+    return st
+
+  def s_step(sysv, state, action):
+    st = S.step(state, action)
+    st.f['reward'] = st.f['reward'] + uf('sysdep', asarr(sysv.f['mass']))
+    return st
+  I.contracts[(SCRIPT_MOD, 'script_reset')] = s_reset
+  I.contracts[(SCRIPT_MOD, 'script_step')] = s_step
+  Env = ClsRef(SCRIPT_MOD, load(SCRIPT_MOD)['classes']['ScriptEnv'])
+  L, Li = sym('L'), sym('Linner')
+  rngs = symarr('key', (B, 2))
+  actions = [symarr('a%d_' % t, (B, 2)) for t in range(nsteps)]
+  masses = symarr('mass', (B,))
+  g = sym('g')
+
+  def stack(sysv):
+    bare = I.apply(Env, [sysv], {})
+    return c15.mk(I, 'EpisodeWrapper', bare, Li, 2)       # an inner wrapper that changes behaviour (action repeat 2)
+  base = Struct('System', {'mass': sym('m0'), 'gravity': g}, home=None)
+  sysv = Struct('System', {'mass': masses, 'gravity': g}, home=None)
+  in_axes = Struct('System', {'mass': 0, 'gravity': None}, home=None)
+  rand = ('prim', 'randomize', lambda s_: (sysv, in_axes))
+  batched = run_wrapped(I, None, stack(base), rngs, actions, L, 1, rand)
+  bad = None
+  for b in range(B):
+    sys_b = Struct('System', {'mass': masses[b], 'gravity': g}, home=None)
+    solo = run_wrapped(I, None, stack(sys_b), rngs[b:b + 1], [a[b:b + 1] for a in actions], L, 1, None)
+    for t, (sb, ss) in enumerate(zip(batched, solo)):
+      vb, vs = member_view(sb, b), member_view(ss, 0)
+      diff = [k for k in vb if not same(vb[k], vs[k])]
+      if diff and bad is None:
+        bad = (b, t, diff, diff_report(vb[diff[0]], vs[diff[0]]))
+  rep.check(bad is None, 'R7.1', 'wrap(already wrapped env, domain randomisation): member == the same stack over a bare env with its system',
+            lambda: 'member %d of the randomised batch differs, after %s, from the same wrapper stack built on its own system in %s: %s' % (
+                bad[0], 'reset' if bad[1] == 0 else 'step %d' % bad[1], bad[2], bad[3]),
+            where=f.where(), construct='EpisodeWrapper(bare, L_inner, action_repeat=2) handed to training.wrap(randomization_fn=...); '
+            'reference: no randomisation, bare env constructed with the member system')
+
+
 def reentrant(U, rep, tier):
   """R7.4: jit == eager on a re-used state.  Under jit every call re-traces from the caller's values; eagerly,
   an in-place write to a dict shared with the caller's state survives the call.  The two agree iff stepping
@@ -289,6 +369,7 @@ def no_channels(U, rep):
 
 
 def run(U, rep, tier):
+  randomised_inner_stack(U, rep, tier)
   no_cached_system_values(U, rep)
   batched_equals_solo(U, rep, tier)
   reentrant(U, rep, tier)
